@@ -13,6 +13,7 @@ Values
 Expression nodes (tuples, see gen/expr_gen.py for the generator):
     ("in", type, slot)            operand supplied from outside (input port / constant), slot = operand number
     ("lit", k)                    python int literal
+    ("const", type, value)        typed compile-time constant operand (Unsigned[2](2), Bit(1), True, En3.eb ...)
     ("bin", op, l, r)             op in add sub mul fdiv tdiv mod rem and or xor cat shl shr
     ("cmp", (op,...), (e,...))    comparison chain, op in eq ne lt le gt ge
     ("un", op, x)                 op in inv neg abs not
@@ -136,6 +137,8 @@ INT_DOMAIN = (-2, -1, 0, 1, 2, 3, 4)
 
 
 def truth(t, v):
+    if t == INT:
+        return v != 0
     if t == BIT:
         return v == 1
     if t == BOOL:
@@ -177,6 +180,10 @@ def typeof(node):
         return node[1]
     if k == "lit":
         return INT
+    if k == "const":
+        if node[2] not in domain(node[1]):
+            raise IllTyped("constant outside its type")
+        return node[1]
     if k == "bin":
         return _bin_type(node[1], node[2], node[3])
     if k == "cmp":
@@ -295,7 +302,10 @@ def typeof(node):
         if not node[2]:
             raise IllTyped("anyall empty")
         for e in node[2]:
-            truth_ok(typeof(e))
+            if not is_lit(e):  # builtin any()/all(): python ints count by their truth value
+                truth_ok(typeof(e))
+        if all(is_lit(e) for e in node[2]):
+            raise IllTyped("anyall of literals")
         return BOOL
     if k == "anyvec":
         if not is_vec(typeof(node[2])):
@@ -400,6 +410,8 @@ def evaluate(node, env):
         return env[node[2]]
     if k == "lit":
         return node[1]
+    if k == "const":
+        return node[2]
     if k == "bin":
         return _bin_val(node, env)
     if k == "cmp":
@@ -638,7 +650,7 @@ def leaves(node, acc=None):
                 raise IllTyped("slot reused with a different type")
             acc[node[2]] = node[1]
             return acc
-        if node and node[0] == "lit":
+        if node and node[0] in ("lit", "const"):
             return acc
         for x in (node[1:] if isinstance(node[0], str) else node):
             if isinstance(x, tuple):
